@@ -380,6 +380,11 @@ Definition read_gen (v : variant) (e : env) (st : state) (a : args) : state * ou
 Definition read := read_gen current.
 Definition read_legacy := read_gen legacy.
 
+(* DataLoader.open(path) on a loader that is already open: close(), the cache emptied (self.data = {}), a new reader
+   with an index, so both need flags are False again.  [clears] = the source assigns {} to self.data in open() *)
+Definition reopen_gen (clears : bool) (st : state) : state := if clears then init_state else mkState (s_cache st) false false.
+Definition reopen := reopen_gen open_clears_cache.
+
 (* a history of read() calls on one loader *)
 Definition run_gen (v : variant) (e : env) (st : state) (h : list args) : state :=
   fold_left (fun s a => fst (read_gen v e s a)) h st.
